@@ -132,3 +132,9 @@ def run(ctx):
     ctx.rule("guard-meaning.is_legal")
     c04.check_is_legal(ctx, f, L)
     c04.check_king_is_legal(ctx, f, L)
+    # ... and "legal" is the rules' notion: is_legal is held to move generation, move generation to the rules (owned by C01;
+    # a slip in a generator that is_legal shares is invisible to the agreement rule above)
+    from . import c01
+    expl_ = ctx.explanation
+    c01.run(ctx)
+    ctx.explanation = expl_
